@@ -71,6 +71,8 @@ async def apply(
     # A patch that has changed nothing (e.g. the same results as before) brings no new events; so, sleep as without it.
     applied = False
     unchanged = resource_version is not None and resource_version == body.metadata.get('resourceVersion')
+    if unchanged:
+        resource_version = None  # this version is already seen, it will not come again: nothing to expect and wait for.
     if delay and patch and not unchanged:
         logger.debug(f"Sleeping was skipped because of the patch, {delay} seconds left.")
     elif delay is not None:
